@@ -169,6 +169,23 @@ let handle fields impl : string option * string list =
     let m = match enc_Forked (fun _ p -> p) ((b (Util.bytes_of_hex digest), n_of_util (Util.n_of_int (int_of_string k))), b (Util.bytes_of_hex payload)) with
       | Ok x -> "ok " ^ Util.hex_of_bytes (ub x) | Err _ -> "err" | Panic -> "panic" in
     (Some m, if starts impl "panic" then ["encoder-panics-" ^ wname] else [])
+  | ["redec"; tname; _hx; hy] ->
+    (* decoding hy into an object that already holds the decoding of hx.  For the types whose decoder is
+       receiver-independent today the model observable is dec_T of hy alone (dec_T is a function of the bytes); a
+       difference is a CORRESPONDENCE difference, not a violation of the property as stated (no input violates it unless
+       some call site reuses a receiver).  The receiver-dependent types (library convention) are not compared. *)
+    if List.mem tname Drv_c14_more.receiver_dependent then (None, [])
+    else begin
+      let (_, t, _) = (try find_type tname with Not_found -> failwith ("unknown type " ^ tname)) in
+      let m = match t.c_dec_code (b (Util.bytes_of_hex hy)) with
+        | Ok fs -> "ok " ^ dump fs | Err e -> Printf.sprintf "err %d" (int_n e) | Panic -> "panic" in
+      (Some m, if starts impl "panic" then ["decoder-panics-" ^ tname ^ " on a used object " ^ impl] else [])
+    end
+  | ["hold"; tname; arg] ->
+    let (_, t, _) = (try find_type tname with Not_found -> failwith ("unknown type " ^ tname)) in
+    let m = match t.c_enc (parse_dump t arg) with
+      | Ok x -> "ok " ^ Util.hex_of_bytes (ub x) | Err _ -> "err" | Panic -> "panic" in
+    (None, if m = impl then [] else ["encoding-changed-by-later-encode-" ^ tname ^ " held bytes differ from the encoding"])
   | [kind; tname; arg] ->
     let (_, t, names) = (try find_type tname with Not_found -> failwith ("unknown type " ^ tname)) in
     (match kind with
